@@ -19,8 +19,14 @@ for s in seeds:
     txt=open(os.path.join(tmp,s+'.out'),errors='replace').read()
     keys=[re.sub(r' at [^ ]+:\d+.*| at -:.*','',l.strip()[len('violated '):]) for l in txt.splitlines() if l.strip().startswith('violated ')]
     props=sorted({k.split('.')[0] for k in keys})
+    if "PATCH DOES NOT APPLY" in txt:
+        # the code the change edits has been rewritten since (a later fix: commit); keep what was recorded before
+        prev=d.get(s,{})
+        d[s]={"detected": prev.get("detected"), "detected_by_properties": prev.get("detected_by_properties",[]), "first_keys": prev.get("first_keys",[]),
+              "skipped": "does not apply to the current tree any more; the entry records the last evaluation on a tree it applied to"}
+        continue
     d[s]={"detected": bool(keys), "detected_by_properties": props, "first_keys": keys[:4]}
     if not keys: d[s]["note"]=txt.strip().splitlines()[-1] if txt.strip() else ""
 json.dump(dict(sorted(d.items())),open(out,'w'),indent=1)
-print(sum(1 for v in d.values() if v["detected"]),"of",len(d),"seeded changes detected")
+print(sum(1 for v in d.values() if v["detected"]),"of",len(d),"seeded changes detected;",sum(1 for v in d.values() if v.get("skipped")),"no longer apply")
 PY
